@@ -71,14 +71,14 @@ theorem compact_extends (cfg : Cfg K V) (s s' : State K V) (b : Nat) (ids : List
 omit [DecidableEq V] in
 theorem addVectors_extends (s s' : State K V) (b : Nat) (ids : List Nat)
     (h : addVectors s b ids = .ok s') : Extends s s' := by
-  unfold addVectors at h
+  unfold addVectors addVectorsOf at h
   opsplit h
   all_goals exact extends_self_commit ..
 
 omit [DecidableEq V] in
 theorem deleteVectors_extends (s s' : State K V) (b : Nat) (ids : List Nat)
     (h : deleteVectors s b ids = .ok s') : Extends s s' := by
-  unfold deleteVectors at h
+  unfold deleteVectors deleteVectorsOf at h
   opsplit h
   all_goals exact extends_self_commit ..
 
